@@ -13,7 +13,7 @@
 From Kit Require Import C13.Model_FifoMutex C13.Model_FifoMap C13.Model_CMap C13.Model_Ctx
   C13.Model_Outer C13.Spec C13.Check
   C13.Proofs_Fifo C13.Proofs_FifoMap C13.Proofs_Ctx C13.Proofs_CMap C13.Proofs_Refuted C13.Proofs_Outer
-  C13.Proofs_Outer2 C13.Proofs_Oracle.
+  C13.Proofs_Outer2 C13.Proofs_Outer3 C13.Proofs_Oracle.
 
 (* ---------------------------------- fifo.Mutex ---------------------------------------- *)
 
@@ -119,6 +119,17 @@ Theorem C13_ctx_free_token_take : forall es s t w c, xrun xinit es = Some s -> x
   exists s1 s2, xstep s (XTake t) = Some s1 /\ xstep s1 (XRW t) = Some s2 /\ xpcs s2 t = XHold w.
 Proof. exact ctx_free_token_take. Qed.
 Print Assumptions C13_ctx_free_token_take.
+
+(* ... all schedules, including those in which the select picks the send although the context is
+   already done (the model's token event does not look at the context): a taken token always has
+   an owner whose acquisition did not end in an error; a call that reported an error owns nothing;
+   and when nobody owns the token, token and RWMutex are free. *)
+Theorem C13_ctx_token_never_orphaned : forall es s, xrun xinit es = Some s ->
+  (tok s = true -> exists t, owns s t /\ xres s t <> Some false) /\
+  (forall t, xres s t = Some false -> ~ owns s t) /\
+  ((forall t, ~ owns s t) -> tok s = false /\ rww s = false /\ rwr s = 0%nat).
+Proof. exact ctx_token_never_orphaned. Qed.
+Print Assumptions C13_ctx_token_never_orphaned.
 
 (* ---------------------------------- cmap.Mutex ---------------------------------------- *)
 
@@ -283,6 +294,61 @@ Theorem C13_outer_entry_only_with_grant : forall s e s' p,
                              wg s' = (wg s + 1)%Z.
 Proof. exact outer_entry_only_with_grant. Qed.
 Print Assumptions C13_outer_entry_only_with_grant.
+
+(* REGISTRATIONS, ALL SCHEDULES (1): rcancels and the reader records that are not done are in
+   bijection in every reachable state - every entry (i, n) is record n, not done, carrying index
+   i; every not-done record has its entry; the indices of the entries are pairwise distinct, also
+   across writer epochs (a writer resets rcancelx to 0); and the WaitGroup equals the number of
+   not-done records. *)
+Theorem C13_outer_registrations : forall g es s, orun (oinit g) es = Some s ->
+  (forall i n, In (i, n) (rcs s) ->
+               exists r, nth_error (recs s) n = Some r /\ r_idx r = i /\ r_done r = false) /\
+  (forall n r, nth_error (recs s) n = Some r -> r_done r = false -> In (r_idx r, n) (rcs s)) /\
+  NoDup (map fst (rcs s)) /\
+  wg s = live (recs s).
+Proof. exact outer_registrations. Qed.
+Print Assumptions C13_outer_registrations.
+
+(* (2) A RELEASE IS KEYED BY THE RECORD (the closure's own [done] flag), not by the map index:
+   when a reader calls its cancel func - at any time, e.g. long after a writer cancelled it, the
+   writer unlocked and ANOTHER reader was registered under the same index - every other record
+   and every other record's entry are exactly as before; and if the record was already done,
+   nothing at all changes (records, rcancels, WaitGroup).  A variant that looks the index up in
+   the map (seeded change C13-r3m2) falsifies this: there the stale release removes the new
+   reader's entry and counts the WaitGroup down. *)
+Theorem C13_outer_release_only_own : forall g es s t n s', orun (oinit g) es = Some s ->
+  opcs s t = ORHold n -> ostep s (ORRelease t) = Some s' ->
+  (forall m, m <> n -> nth_error (recs s') m = nth_error (recs s) m) /\
+  (forall i m, m <> n -> (In (i, m) (rcs s') <-> In (i, m) (rcs s))) /\
+  (done_of s n = true -> recs s' = recs s /\ rcs s' = rcs s /\ wg s' = wg s).
+Proof. exact outer_release_only_own. Qed.
+Print Assumptions C13_outer_release_only_own.
+
+(* ... the same for the rcancelGrace goroutine of record n (it may be a stale one too). *)
+Theorem C13_outer_grace_only_own : forall g es s n s', orun (oinit g) es = Some s ->
+  ostep s (OGrace n) = Some s' ->
+  (forall m, m <> n -> rec_eq (nth_error (recs s) m) (nth_error (recs s') m)) /\
+  (forall i m, m <> n -> (In (i, m) (rcs s') <-> In (i, m) (rcs s))).
+Proof. exact outer_grace_only_own. Qed.
+Print Assumptions C13_outer_grace_only_own.
+
+(* (3) OWNERSHIP, ALL SCHEDULES while the lock is running: every entry of rcancels belongs to a
+   reader thread that holds the read lock (RLock returned nil, cancel func not yet called) or
+   whose grant sits in its response cell - so an acquisition that reported an error has left no
+   registration, whatever the random choices of the selects were. *)
+Theorem C13_outer_entries_owned : forall g es s i n, orun (oinit g) es = Some s -> closed s = false ->
+  In (i, n) (rcs s) ->
+  exists r, nth_error (recs s) n = Some r /\ r_idx r = i /\ r_done r = false /\
+            (opcs s (r_tid r) = ORHold n \/
+             exists c, opcs s (r_tid r) = ORResp c /\ resps s (r_tid r) = Some (PGrant n)).
+Proof. exact outer_entries_owned. Qed.
+Print Assumptions C13_outer_entries_owned.
+
+(* ... in particular an idle thread - e.g. one whose RLock has just reported an error - owns none. *)
+Theorem C13_outer_idle_owns_nothing : forall g es s t i n r, orun (oinit g) es = Some s -> closed s = false ->
+  opcs s t = OIdle -> In (i, n) (rcs s) -> nth_error (recs s) n = Some r -> r_tid r <> t.
+Proof. exact outer_idle_owns_nothing. Qed.
+Print Assumptions C13_outer_idle_owns_nothing.
 
 (* ---------------------------------- oracles ------------------------------------------- *)
 
